@@ -2,6 +2,7 @@
 
 R07.1 comparator field coverage   R07.2 contravariance = argument swap inside invert..revert, iterate expected side
 R07.3 memo soundness             R07.4 limits operators       R07.6 check dominates the argument edge (graph.rs)"""
+import re
 from collections import defaultdict
 from cfg import CFG, error_blocks
 from prov import narrow
@@ -116,6 +117,7 @@ def run(ctx):
     check_limits(ctx)
     check_use_site(ctx)
     check_cross_kind(ctx)
+    check_ordered_equality(ctx, fns)
 
 
 def check_variance(ctx, fns):
@@ -360,6 +362,55 @@ def check_use_site(ctx):
                    "the incoming edges of the instantiation are scanned for the same argument index before the edge is added" if ok2 else
                    "no scan of incoming argument edges dominates the new edge: an argument could be passed twice", site=site)
     ctx.ob("R07.6", "count", n >= 1, "Argument add_edge sites: %d" % n, nontrivial=False)
+
+
+UNORDERED = ("indexmap::map::IndexMap", "indexmap::set::IndexSet", "std::collections::hash::map::HashMap", "std::collections::hash::set::HashSet",
+             "hashbrown::")
+
+
+def contains_unordered(db, ty, depth=4, seen=None):
+    """does a value of type `ty` (as printed) contain a collection whose `==` ignores element order?"""
+    seen = seen if seen is not None else set()
+    # an arena id compares the index, not the contents it designates
+    ty = re.sub(r"id_arena::Id<[^<>]*(<[^<>]*>)?[^<>]*>", "Id", ty)
+    if any(u in ty for u in UNORDERED):
+        return ty
+    if depth == 0:
+        return None
+    for path, a in db.adts.items():
+        if not a.get("local") or path in seen:
+            continue
+        short = path.split("::", 1)[1] if "::" in path else path
+        if re.search(r"(^|[^\w:])(%s|%s)($|[^\w:])" % (re.escape(path), re.escape(short)), ty):
+            seen.add(path)
+            for v in a["variants"]:
+                for fl in v["fields"]:
+                    r = contains_unordered(db, fl["ty"], depth - 1, seen)
+                    if r:
+                        return "%s.%s: %s" % (path.split("::")[-1], fl["name"], r)
+    return None
+
+
+def check_ordered_equality(ctx, fns):
+    """R07.7: records, variants, flags, enums, tuples and parameter lists are *ordered* in the component model, and wac keeps
+    them in IndexMap/IndexSet — whose `==` ignores order.  The checker may therefore use `==`/`!=` only on scalars, ids,
+    names and core types; a collection-level (or derived struct-level) equality accepts a permutation as equal."""
+    db = ctx.db
+    n = 0
+    for f in fns:
+        for t in f.calls():
+            d = t.declared or ""
+            if not d.endswith(("cmp::PartialEq::eq", "cmp::PartialEq::ne")) or any(m.startswith(("log", "$crate::log")) for m in t.mac):
+                continue
+            n += 1
+            bad = None
+            for g in t.gen_args[:2]:
+                bad = bad or contains_unordered(db, g)
+            ctx.ob("R07.7", "eq|%s|%s" % (f.id.split("::", 1)[1], (t.gen_args[0] if t.gen_args else "?").lstrip("&")), bad is None,
+                   "equality on %s (no unordered collection inside)" % (t.gen_args[0] if t.gen_args else "?") if bad is None else
+                   "`==` on %s compares an order-insensitive collection (%s): two types whose fields/cases/parameters are the same set in a different order are treated as equal, "
+                   "which the component model's subtyping rejects" % (t.gen_args[0], bad), site="%s in %s" % (t.span, f.id))
+    ctx.floor("R07.7", 15)
 
 
 def check_cross_kind(ctx, rule="R07.5"):
